@@ -458,7 +458,13 @@ func (p *Profile) genRaw(rng *rand.Rand, tr *Trace, wtFiles, tracked, branches [
 		}
 		av = append(av, EscS(a))
 	}
-	return M{"ev": "raw", "argv": av, "ru": sc.ru, "dom": false}
+	ru := sc.ru
+	if (sc.name == "add" || sc.name == "rm") && n > 1 {
+		// arguments are processed one after the other: with repeated or overlapping arguments the first occurrence
+		// acts and a later one may fail, so a non-zero exit does not mean that nothing was done
+		ru = false
+	}
+	return M{"ev": "raw", "argv": av, "ru": ru, "dom": false}
 }
 
 func annotated(T *Tables, ev M) M {
